@@ -1186,7 +1186,8 @@ class ASTBuilder:
             mod: Optional[ast.Module] = None
             try:
                 mod = parseFile(path)
-            except (SyntaxError, ValueError) as e:
+            except (SyntaxError, ValueError, RecursionError, MemoryError) as e:
+                # RecursionError, MemoryError: the parser gives up on too deeply nested code.
                 ctx.report(f"cannot parse file, {e}")
 
             self.ast_cache[path] = mod
@@ -1196,7 +1197,7 @@ class ASTBuilder:
         mod = None
         try:
             mod = _parse(py_string)
-        except (SyntaxError, ValueError):
+        except (SyntaxError, ValueError, RecursionError, MemoryError):
             ctx.report("cannot parse string")
         return mod
 
